@@ -25,7 +25,10 @@ Big(L) == <<64, 20, 1, 97>> \o F!EncStr(Rep(113, L)) \o <<65>>
 \* {"a":"<L>","b":[1,2,{"c":true}]}
 Big2(L) == <<64, 20, 1, 97>> \o F!EncStr(Rep(113, L)) \o <<20, 1, 98, 66, 16, 1, 16, 2, 64, 20, 1, 99, 68, 65, 67, 65>>
 FamilyDocs ==
-  {<<>>, <<64>>, <<65>>, <<0>>, <<64, 65>>, <<66, 67>>, <<64, 65, 65>>, <<64, 65, 64, 65>>} \cup
+  {<<>>, <<64>>, <<65>>, <<0>>, <<64, 65>>, <<66, 67>>, <<64, 65, 65>>, <<64, 65, 64, 65>>,
+   \* keys that are identical up to and including an embedded 0x00, and an empty bytes value
+   <<64, 20, 3, 107, 0, 97, 16, 1, 20, 3, 107, 0, 98, 16, 2, 65>>, <<64, 20, 3, 0, 97, 98, 68, 20, 2, 0, 98, 69, 65>>,
+   <<64, 20, 1, 97, 24, 0, 20, 1, 98, 20, 0, 65>>} \cup
   {ObjNest(d) : d \in {1, 2, 9, 10, 11, 12}} \cup
   {Big(L) : L \in {985, 990, 991, 992, 993, 994, 1000, 1300}} \cup {Big2(L) : L \in {970, 975, 976, 977, 978, 979, 980, 985, 990, 995, 1000, 1010, 2000}}
 
